@@ -68,7 +68,9 @@ pub fn run(ctx: &mut Ctx) {
     match prop.as_str() {
         "C02" | "C03" | "C04" => {
             let b = ctx.budget_s;
-            ctx.budget_s = b * 0.4;
+            ctx.budget_s = b * 0.2;
+            lane_ties(ctx);
+            ctx.budget_s = b * 0.45;
             lane_trees(ctx);
             if ctx.prop == "C03" {
                 ctx.budget_s = b * 0.7;
@@ -582,6 +584,121 @@ fn lane_deep(ctx: &mut Ctx) {
         if let Some(d) = &h.desync {
             if ctx.cov.violations.iter().all(|v| v.case != k || v.lane != "deep") {
                 ctx.inconclusive(format!("deep chain abandoned: {}", d));
+            }
+        }
+    }
+}
+
+/// Trees built to tie: two (or three) subtrees of the anchor whose heaviest chains carry exactly the
+/// same accumulated difficulty with different (or equal) block counts, plus light side branches
+/// of any length, in random parent-before-child arrival order.
+fn lane_ties(ctx: &mut Ctx) {
+    let max_cases = tier_scale(ctx, 100_000, 10_000_000);
+    for k in ctx.cases("ties", max_cases) {
+        if !ctx.time_left() {
+            break;
+        }
+        ctx.begin("ties", k);
+        let mut rng = Rng::derive(&[ctx.seed, fp_str("ties"), k]);
+        let (net, path) = match k % 3 {
+            0 => (Network::Regtest, Path::Insert),
+            1 => (Network::Mainnet, Path::Push),
+            _ => (Network::Testnet, Path::Push),
+        };
+        let cfg = HistCfg {
+            net,
+            path,
+            threshold: *rng.pick(&[1000u32, 1000, 6, 3]),
+            n_each: 1,
+            max_txs: 1,
+            fork_pct: 0,
+            palette: Palette::One,
+            fanout_pct: 0,
+            share_pct: 0,
+            lazy_fees: true,
+            sync_gate: false,
+            ingest_pct: 100,
+            fee_txs: true,
+        };
+        // plan: nodes (parent index, difficulty); index 0 = the anchor
+        let mut plan: Vec<(usize, u128)> = vec![];
+        let n_sub = rng.range(2, 3) as usize;
+        let la = rng.range(1, 4) as usize;
+        let mut sums = vec![];
+        let mut chains: Vec<Vec<usize>> = vec![];
+        for sidx in 0..n_sub {
+            let len = if sidx == 0 { la } else { rng.range(1, 5) as usize };
+            let mut ids = vec![];
+            let mut parent = 0usize;
+            let mut sum: u128 = 0;
+            for j in 0..len {
+                let d: u128 = if sidx > 0 && j + 1 == len {
+                    // make the sums equal if possible
+                    let target: u128 = sums[0];
+                    if target > sum { target - sum } else { 1 }
+                } else if sidx > 0 {
+                    let target: u128 = sums[0];
+                    let room = target.saturating_sub(sum + (len - j - 1) as u128);
+                    if room >= 1 { rng.range(1, room.min(5) as u64) as u128 } else { 1 }
+                } else {
+                    rng.range(1, 5) as u128
+                };
+                plan.push((parent, d));
+                parent = plan.len();
+                ids.push(parent);
+                sum += d;
+            }
+            sums.push(sum);
+            chains.push(ids);
+        }
+        // light side branches
+        for _ in 0..rng.range(0, 2) {
+            let c = rng.pick(&chains).clone();
+            let mut parent = *rng.pick(&c);
+            if rng.chance(1, 4) {
+                parent = 0;
+            }
+            for _ in 0..rng.range(1, 6) {
+                plan.push((parent, 1));
+                parent = plan.len();
+            }
+        }
+        let mut h = Hist::new(cfg, rng);
+        h.report_c03 = ctx.prop == "C03";
+        let mut delivered: Vec<Option<crate::parse::H>> = vec![None; plan.len() + 1];
+        delivered[0] = Some(h.model.anchor);
+        let mut remaining: Vec<usize> = (1..=plan.len()).collect();
+        while !remaining.is_empty() {
+            let ready: Vec<usize> = remaining.iter().cloned().filter(|i| delivered[plan[*i - 1].0].is_some()).collect();
+            if ready.is_empty() {
+                break;
+            }
+            let i = *h.rng.pick(&ready);
+            remaining.retain(|x| *x != i);
+            let parent = delivered[plan[i - 1].0].unwrap();
+            if !h.model.is_live(&parent) {
+                continue;
+            }
+            let b = h.gen_block(&parent);
+            match h.deliver(b, plan[i - 1].1, ctx) {
+                Some(hh) => delivered[i] = Some(hh),
+                None => break,
+            }
+            if !h.opportunity(ctx) {
+                break;
+            }
+            match ctx.prop.as_str() {
+                "C02" => mon::check_c02(&mut h, ctx),
+                "C04" => mon::check_c04(&mut h, ctx, Some(3), 2),
+                "C05" => mon::check_c05(&mut h, ctx, Some(3), &[], 2),
+                "C07" => mon::check_c07(&mut h, ctx, false, 40),
+                _ => {}
+            }
+        }
+        ctx.cov.count("tie_tree_cases");
+        if let Some(d) = &h.desync {
+            if ctx.cov.violations.iter().all(|v| v.case != k || v.lane != "ties") {
+                ctx.inconclusive(format!("tie tree abandoned: {}", d));
             }
         }
     }
